@@ -38,6 +38,10 @@ fn tree(version: usize, n_roas: usize, bad: Option<(usize, Fault)>) -> TreeSpec 
         if let Some((b, f)) = bad { if b == i { o.fault = Some(f); } }
         ca.objs.push(o);
     }
+    // One ASPA and one router certificate per version (disjoint across
+    // versions like the VRPs) so that every payload type is observed.
+    ca.objs.push(ObjSpec::aspa(&format!("v{version}a"), 64500 + version as u32, &[version as u32]));
+    ca.objs.push(ObjSpec::router(&format!("v{version}k"), 64500 + version as u32, version % 2));
     if let Some((b, f)) = bad {
         if b == n_roas {
             ca.point_fault = Some(match f {
@@ -58,7 +62,13 @@ fn ca_payload(image: &Image, ca: &str) -> BTreeSet<Payload> {
 }
 
 fn served_of(ds: &data::DataSet, universe: &BTreeSet<Payload>) -> BTreeSet<Payload> {
-    ds.origins.iter().map(|o| Payload::Origin(*o)).filter(|p| universe.contains(p)).collect()
+    // ASPAs and router keys of the CA are recognised by their AS number
+    // (64501.. for the versions), whatever their exact content.
+    let mine_asn = |asn: u32| (64501..=64505).contains(&asn);
+    ds.origins.iter().map(|o| Payload::Origin(*o)).filter(|p| universe.contains(p))
+        .chain(ds.keys.iter().filter(|k| mine_asn(k.asn.into_u32())).map(|k| Payload::RouterKey(k.clone())))
+        .chain(ds.aspas.iter().filter(|(c, _)| mine_asn(c.into_u32())).map(|(c, p)| Payload::aspa(*c, p.clone())))
+        .collect()
 }
 
 fn permutations(n: usize) -> Vec<Vec<usize>> {
@@ -85,6 +95,9 @@ pub struct CaseSpec {
     pub order: Vec<usize>,
     /// three-version history: v1, v2 (abandoned), v3 complete
     pub third: bool,
+    /// v2's ASPA and router certificate are processed after (instead of
+    /// before) all other entries
+    pub extras_last: bool,
 }
 
 pub fn run_case(gen: &Gen, dir: std::path::PathBuf, c: &CaseSpec) -> Result<String, (String, String)> {
@@ -109,9 +122,15 @@ pub fn run_case(gen: &Gen, dir: std::path::PathBuf, c: &CaseSpec) -> Result<Stri
     }
 
     // run 2 with the imposed order
-    let names: Vec<String> = c.order.iter().map(|i| {
+    let mut names: Vec<String> = c.order.iter().map(|i| {
         if *i == c.n { "ca1.crl".to_string() } else { format!("v2r{i}.roa") }
     }).collect();
+    if c.extras_last {
+        names.push("v2a.asa".into()); names.push("v2k.cer".into());
+    }
+    else {
+        names.insert(0, "v2k.cer".into()); names.insert(0, "v2a.asa".into());
+    }
     h.orders.lock().unwrap().insert(mft_uri.clone(), names.clone());
     h.order_log.lock().unwrap().clear();
     case.publish(&v2);
@@ -155,18 +174,26 @@ pub fn cases(thorough: bool) -> Vec<CaseSpec> {
     for n in 1..=max_n {
         let perms = permutations(n + 1);
         for order in &perms {
-            res.push(CaseSpec { n, bad: None, order: order.clone(), third: false });
+            res.push(CaseSpec { n, bad: None, order: order.clone(), third: false, extras_last: false });
             for b in 0..=n {
                 for f in [Fault::Missing, Fault::HashMismatch] {
-                    res.push(CaseSpec { n, bad: Some((b, f)), order: order.clone(), third: false });
+                    res.push(CaseSpec { n, bad: Some((b, f)), order: order.clone(), third: false, extras_last: false });
                 }
             }
         }
     }
     if thorough {
+        let n = res.len();
+        for i in 0..n {
+            if res[i].n <= 2 {
+                let mut c = res[i].clone();
+                c.extras_last = true;
+                res.push(c);
+            }
+        }
         for order in permutations(3) {
             for b in 0..=2 {
-                res.push(CaseSpec { n: 2, bad: Some((b, Fault::Missing)), order: order.clone(), third: true });
+                res.push(CaseSpec { n: 2, bad: Some((b, Fault::Missing)), order: order.clone(), third: true, extras_last: false });
             }
         }
     }
@@ -189,7 +216,9 @@ pub fn run(ctx: &Ctx) -> Report {
     let mut rep = Report::new("model_checking");
     let cases = cases(ctx.tier.thorough());
     rep.rule = "CA with stored version v1 (run 1) and fetched version v2 \
-        (run 2) listing n ROAs + CRL with VRPs disjoint from v1's; exactly \
+        (run 2) listing n ROAs + CRL + one ASPA + one router certificate \
+        with payload disjoint from v1's (the ASPA and router certificate \
+        are processed first; thorough: also last); exactly \
         one entry (every choice, incl. the CRL) missing or hash-mismatching, \
         or none (control); every one of the (n+1)! processing orders of the \
         manifest entries imposed through the order hook; thorough adds n=3 \
@@ -209,7 +238,7 @@ pub fn run(ctx: &Ctx) -> Report {
             Err((class, msg)) => {
                 rep.outcome(format!("VIOLATION:{class}"));
                 rep.violation(fingerprint(c, &class), msg,
-                    json!({"n": c.n, "bad": c.bad.map(|(b, f)| json!([b, format!("{f:?}")])), "order": c.order, "third": c.third}));
+                    json!({"n": c.n, "bad": c.bad.map(|(b, f)| json!([b, format!("{f:?}")])), "order": c.order, "third": c.third, "extras_last": c.extras_last}));
             }
         }
     }
@@ -233,6 +262,7 @@ pub fn replay(ctx: &Ctx, v: &Value) -> Report {
         n: v["n"].as_u64().unwrap() as usize, bad,
         order: v["order"].as_array().unwrap().iter().map(|x| x.as_u64().unwrap() as usize).collect(),
         third: v["third"].as_bool().unwrap_or(false),
+        extras_last: v["extras_last"].as_bool().unwrap_or(false),
     };
     let r = run_case(&gen, ctx.scratch.join("replay"), &c);
     println!("{c:?}: {r:?}");
